@@ -383,6 +383,12 @@ class SigmaDetection(ParentChainMixin):
         if self_detection_item_types == {
             SigmaDetection
         }:  # if the items are SigmaDetections, they originate from a list and therefore must not be merged.
+            if len(detection_items) > 1 and self.item_linking is ConditionAND:
+                # A list is read back as OR-linked detections.
+                raise sigma_exceptions.SigmaValueError(
+                    "Can't convert detection into plain value because it contains AND-linked detections.",
+                    source=self.source,
+                )
             return detection_items
         else:  # SigmaDetectionItems must be merged into a dict, where they originally were created from.
             detection_items_types = {  # create set of types for decision what has to be returned
